@@ -1,11 +1,11 @@
 (* C06 — LP fee and incentive accrual: fully backed, in-range only, pro-rata, claim-once.
    Statements only; proofs in Amm/FeesVec.v, FeesProofs.v, FeesLoop.v, FeesFlow.v, FeesSwap.v,
-   FeesAccrual.v, FeesBacking.v.  All statements are about the bit-exact model Amm/Pool.v of
+   FeesAccrual.v, FeesBacking.v, FeesSwapBacking.v, FeesOthers.v.  All statements are about the bit-exact model Amm/Pool.v of
    x/liquiditypool (validated against the real code on every run by Amm/C06Check.v). *)
 From Coq Require Import ZArith List Bool Sorted.
 Import ListNotations.
 From Sunrise Require Import Base.Outcome Base.Dec Amm.Math Amm.Pool Amm.LiqDefs Amm.LiqInv Amm.Fees Amm.FeesVec
-  Amm.FeesProofs Amm.FeesLoop Amm.FeesFlow Amm.FeesSwap Amm.FeesAccrual Amm.FeesBacking.
+  Amm.FeesProofs Amm.FeesLoop Amm.FeesFlow Amm.FeesSwap Amm.FeesAccrual Amm.FeesBacking Amm.FeesSwapBacking Amm.FeesOthers.
 Local Open Scope Z_scope.
 
 (* ---- fees are charged at the pool's rate on the input ---- *)
@@ -211,12 +211,51 @@ Theorem C06_dust_backed : forall s pid s1 c,
 Proof. exact dust_backed. Qed.
 Print Assumptions C06_dust_backed.
 
+(* ---- a swap is fully backed ---- *)
+
+(* swap_backed (PARTIAL: cursor hypothesis as above): over a swap, with the liquidity bookkeeping of
+   C04 (Inv), the events of the swap are one per step, each step's liquidity is the liquidity of the
+   positions in range at its cursor, every position's growth inside rises by the growth of the
+   steps taken while it was in range, the pool's active liquidity after the swap is again the sum
+   over the in-range positions, and - if no step charged a negative fee -
+     sum over positions of liquidity x rise of growth inside  <=  10^36 x coins sent to the fee account *)
+Theorem C06_swap_backed_partial : forall s ei din dout specified s' i o,
+  Inv s -> FeeWF s -> swap_cursor_ok s ei din specified ->
+  swap s ei din dout specified true = Ok (s', i, o) ->
+  exists evs,
+    Forall (ev_ok (din =? 0) (p_tick (a_pool s)) (p_tick (a_pool s'))) evs /\
+    Forall (fun e : ev => let '(c, _, _, liq) := e in liq = active (a_positions s) c /\ 0 <= liq) evs /\
+    (forall p, In p (a_positions s) -> forall j, (j < 4)%nat ->
+       nth j (below_of s' (pos_upper p)) 0 - nth j (below_of s' (pos_lower p)) 0 =
+       nth j (below_of s (pos_upper p)) 0 - nth j (below_of s (pos_lower p)) 0
+         + (if Nat.eqb j (Z.to_nat din) then sum_in evs (pos_lower p) (pos_upper p) else 0)) /\
+    p_liq (a_pool s') = active (a_positions s') (p_tick (a_pool s')) /\
+    (Forall (fun e : ev => let '(_, _, fc, _) := e in 0 <= fc) evs ->
+     sum_pos (fun p => pos_liq p * sum_in evs (pos_lower p) (pos_upper p)) (a_positions s)
+       <= nth (Z.to_nat din) (swap_fee_coins s ei din dout specified) 0 * P * P).
+Proof. exact swap_backed. Qed.
+Print Assumptions C06_swap_backed_partial.
+
+(* a claim (with the dust it re-injects) leaves the entitlement of every other position whose range
+   does not contain the current tick exactly as it was *)
+Theorem C06_claim_other_out_of_range : forall s pid s1 c q pos t t',
+  FeeWF s -> vnonneg (a_acc_value s) -> 0 <= a_acc_shares s ->
+  prepare_claim s pid = Ok (s1, c) -> q <> pid ->
+  find_pos (a_positions s) q = Some pos ->
+  stored (a_ticks s) (pos_lower pos) -> stored (a_ticks s) (pos_upper pos) -> pos_lower pos < pos_upper pos ->
+  in_range (a_pool s) (pos_lower pos) (pos_upper pos) = false ->
+  entitlement s q = Ok t -> entitlement s1 q = Ok t' -> t' = t.
+Proof. exact claim_other_out_of_range. Qed.
+Print Assumptions C06_claim_other_out_of_range.
+
 (* fee_backing, the full statement: over every history from a pool without positions, per denom,
    coins claimed so far + coins claimable now <= coins the fee account held at the start + received.
-   NOT PROVED in this form.  What is proved: the four per-entry coverage theorems above, that a claim
-   pays at most the entitlement, and (C06_fee_backing_partial) that over every history the statement
-   is equivalent to solvency of the fee account.  Missing: the induction tying the sum of the
-   positions' entitlements to sum(growth x in-range liquidity); note that Dec.Mul rounds half-even,
+   NOT PROVED in this form.  What is proved: the four per-entry coverage theorems above, that a whole
+   swap is backed (C06_swap_backed_partial: sum over positions of liquidity x rise of growth inside
+   <= coins received) and an allocation is (C06_allocate_backed with C06_allocate_accrues_in_range),
+   that a claim pays at most the entitlement, and (C06_fee_backing_partial) that over every history
+   the statement is equivalent to solvency of the fee account.  Missing: the induction over position
+   changes tying the sum of the positions' entitlements to those sums; note that Dec.Mul rounds half-even,
    so the sum of entitlements can exceed the exact pro-rata sum by half an ulp (5e-19 coin) per
    position per update - the inductive invariant must carry that slack, which is absorbed by the
    truncation of payouts to whole coins only while the number of updates stays below 2e18.
